@@ -9,7 +9,7 @@ VECTORS = os.path.join(vlib.ROOT, "corpus", "C19", "rfc_vectors.json")
 
 EXN = {"ValueError": "ValueError", "UnicodeEncodeError": "UnicodeEncodeError", "Error": "BinasciiError", "error": "StructError",
        "RuntimeError": "RuntimeError", "AssertionError": "AssertionError", "TypeError": "TypeError", "Exception": "PlainException",
-       "KeyError": "KeyError", "IndexError": "IndexError", "OverflowError": "OverflowError"}
+       "KeyError": "KeyError", "IndexError": "IndexError", "OverflowError": "OverflowError", "AttributeError": "AttributeError"}
 
 
 # ---------------------------------------------------------------------------------------------------------
@@ -150,7 +150,7 @@ def coq_case(c, decode_salt):
 
 
 def _coq_case(c, decode_salt):
-    k, o = c["kind"], c["out"]
+    k, o = c["kind"], c.get("out")
     tb = tables(c.get("tables", {}))
     if k == "cra":
         sa = opt(c["salted"], lambda s: f"({pyv(s[0])},{int(s[1])},{int(s[2])})")
@@ -173,6 +173,19 @@ def _coq_case(c, decode_salt):
                 f"{res(o, lambda v: '(' + ','.join(hx(h) for h in v) + ')')}")
     if k == "scram_welcome":
         return f"CScramWelcome {tb} {hx(c['am'])} {hx(c['salted'])} {pyv(c['sig'])} {res(o, blit)}"
+    if k == "scram_history":
+        def op(o):
+            if o["op"] == "authextra":
+                return f"OpAuthextra {sl(o['nonce'])}"
+            if o["op"] == "welcome":
+                return f"OpWelcome {opt(o['sig'], pyv)}"
+            x = o["extra"]
+            return (f"OpChallenge {{| sx_nonce := {sl(x['nonce'])}; sx_kdf := {sl(x['kdf'])}; sx_salt := {pyv(x['salt'])}; "
+                    f"sx_iterations := {int(x['iterations'])}; sx_memory := {opt(x['memory'], lambda m: str(int(m)))}; sx_cbind := {sl(x['cbind'])} |}}")
+        ops = "[" + ";".join(op(o_) for o_ in c["ops"]) + "]"
+        outs = "[" + ";".join(res(o_, hx) for o_ in c["outs"]) + "]"
+        st = f"({opt(c['state'][0], hx)},{opt(c['state'][1], hx)})"
+        return f"CScramHistory {tb} {blit(decode_salt)} {sl(c['password'])} {sl(c['authid'])} {ops} {outs} {st}"
     if k == "scram_cred":
         return f"CScramCred {tb} {sl(c['password'])} {hx(c['salt'])} {res(o, lambda v: '(' + sl(v[0].encode()) + ',' + sl(v[1].encode()) + ')')}"
     if k == "cs_sign":
@@ -193,30 +206,31 @@ def _coq_case(c, decode_salt):
 AREA = {"totp": ("compute_totp",), "check_totp": ("check_totp", "compute_totp"),
         "cra": ("AuthWampCra", "derive_key", "compute_wcs", "pbkdf2"), "derive_key": ("derive_key", "pbkdf2"), "wcs": ("compute_wcs",),
         "pbkdf2": ("pbkdf2",), "scram_challenge": ("AuthScram.on_challenge", "derive_scram"), "scram_welcome": ("AuthScram.on_welcome",),
-        "scram_cred": ("derive_scram_credential",), "cs_sign": ("cryptosign", "CryptosignKey"), "xor": ("util.xor",),
+        "scram_cred": ("derive_scram_credential",), "scram_history": ("AuthScram.on_welcome", "AuthScram.on_challenge"), "cs_sign": ("cryptosign", "CryptosignKey"), "xor": ("util.xor",),
         "create": ("create_authenticator",)}
 
 
 def nontrivial(c):
     """reached the modelled core: a primitive was called, or a codec/xor produced output"""
-    return bool(c.get("tables")) or ("ok" in c["out"] and c["kind"] in ("xor", "codec", "codec_s", "codec_n", "create"))
+    return bool(c.get("tables")) or c["kind"] == "scram_history" or ("ok" in c["out"] and c["kind"] in ("xor", "codec", "codec_s", "codec_n", "create"))
 
 
 # ---------------------------------------------------------------------------------------------------------
 def plan(ck):
     if ck.quick():
         caps = {"cra": 80, "derive_key": 20, "wcs": 25, "pbkdf2": 25, "totp": 90, "check_totp": 30, "scram_challenge": 16,
-                "scram_welcome": 28, "cs_sign": 22, "xor": 50, "codec": 200, "codec_s": 120, "codec_n": 60, "create": 20, "scram_cred": 1}
+                "scram_welcome": 28, "scram_history": 40, "cs_sign": 22, "xor": 50, "codec": 200, "codec_s": 120, "codec_n": 60, "create": 20, "scram_cred": 1}
         jobs = [dict(parts=["vectors", "misc"], n_misc=150),
                 dict(parts=["cra"], n_cra=220),
                 dict(parts=["totp"], n_totp=140),
                 dict(parts=["scram"], n_scram=24, exhaustive_every=8, scram_cred=1),
                 dict(parts=["scram"], n_scram=24, exhaustive_every=8, scram_cred=0, sub=1),
+                dict(parts=["history"], n_history=60),
                 dict(parts=["cs"], n_cs=60, exhaustive_every=15),
                 dict(parts=["cs"], n_cs=60, exhaustive_every=15, sub=1)]
     else:
         caps = {"cra": 260, "derive_key": 60, "wcs": 60, "pbkdf2": 60, "totp": 380, "check_totp": 150, "scram_challenge": 90,
-                "scram_welcome": 220, "cs_sign": 160, "xor": 300, "codec": 1500, "codec_s": 700, "codec_n": 300, "create": 20, "scram_cred": 2}
+                "scram_welcome": 220, "scram_history": 150, "cs_sign": 160, "xor": 300, "codec": 1500, "codec_s": 700, "codec_n": 300, "create": 20, "scram_cred": 2}
         jobs = [dict(parts=["vectors", "misc"], n_misc=1500)]
         for s in range(4):
             jobs.append(dict(parts=["cra"], n_cra=2500, sub=s))
@@ -226,6 +240,8 @@ def plan(ck):
             jobs.append(dict(parts=["scram"], n_scram=700, exhaustive_every=5, scram_cred=2, sub=s))
         for s in range(3):
             jobs.append(dict(parts=["cs"], n_cs=1500, exhaustive_every=6, sub=s))
+        for s in range(3):
+            jobs.append(dict(parts=["history"], n_history=1200, sub=s))
     for i, j in enumerate(jobs):
         j["seed"] = f"{ck.seed}/C19/{j.get('sub', 0)}"
         j["framework"] = "tx"
@@ -307,7 +323,7 @@ def run(ck):
     ck.note_cases(0, (json.dumps(c, sort_keys=True) for c in uniq if nontrivial(c)))
     kinds_sampled = set()
     for c in uniq:
-        if c["kind"] not in kinds_sampled and c["kind"] in ("cra", "totp", "scram_challenge", "scram_welcome", "cs_sign") and "ok" in c["out"]:
+        if c["kind"] not in kinds_sampled and (c["kind"] == "scram_history" or (c["kind"] in ("cra", "totp", "scram_challenge", "scram_welcome", "cs_sign") and "ok" in c["out"])):
             kinds_sampled.add(c["kind"])
             ck.sample(c)
     # 4. the model on the same cases
@@ -330,7 +346,7 @@ def run(ck):
             ck.bump("model disagreement explained by a verifier failure")
             continue
         ck.violation(f"model-disagrees/{c['kind']}", f"implementation and Gallina model disagree on a {c['kind']} case "
-                     f"(implementation output {json.dumps(c['out'])[:120]}); correspondence broken",
+                     f"(implementation output {json.dumps(c.get('out', c.get('outs')))[:120]}); correspondence broken",
                      {"op": "model_case", "case": c, "decode_salt": decode_salt}, found_input=False)
     if broken and not failures:
         ck.log("proof obligations broken, no failing input found by the sweep")
